@@ -213,6 +213,44 @@ type c18Op struct {
 	C     int      `json:"c"`
 	Call  sim.Call `json:"call"`
 	Sleep int      `json:"sleep_us"`
+	// Tx: the call is made inside a user transaction whose function then pauses TxSleep microseconds (syncs of
+	// the client begin and end meanwhile) and, with TxFail, returns an error (the transaction is rolled back)
+	Tx      bool `json:"tx,omitempty"`
+	TxSleep int  `json:"tx_sleep_us,omitempty"`
+	TxFail  bool `json:"tx_fail,omitempty"`
+}
+
+// c18ExecTx runs one call inside a user transaction of a real client's datatype.
+func c18ExecTx(kind sim.Kind, dt interface{}, op c18Op) (res sim.Result) {
+	body := func(view interface{}) error {
+		res = sim.Exec(kind, view, op.Call)
+		if res.Panic != nil {
+			panic(res.Panic)
+		}
+		if op.TxSleep > 0 {
+			time.Sleep(time.Duration(op.TxSleep) * time.Microsecond)
+		}
+		if op.TxFail {
+			return fmt.Errorf("generated failure")
+		}
+		return nil
+	}
+	defer func() {
+		if p := recover(); p != nil {
+			res = sim.Result{Panic: p}
+		}
+	}()
+	switch kind {
+	case sim.Counter:
+		_ = dt.(orda.Counter).Transaction("t", func(c orda.CounterInTx) error { return body(c) })
+	case sim.Map:
+		_ = dt.(orda.Map).Transaction("t", func(c orda.MapInTx) error { return body(c) })
+	case sim.List:
+		_ = dt.(orda.List).Transaction("t", func(c orda.ListInTx) error { return body(c) })
+	default:
+		_ = dt.(orda.Document).Transaction("t", func(c orda.DocumentInTx) error { return body(c) })
+	}
+	return res
 }
 
 type c18Workload struct {
@@ -436,7 +474,12 @@ func c18Run(wl c18Workload) (quiescent bool, calls map[string]int, err error) {
 			continue
 		}
 		r := cls[op.C%len(cls)]
-		res := sim.Exec(wl.Kind, r.dt, op.Call)
+		var res sim.Result
+		if op.Tx {
+			res = c18ExecTx(wl.Kind, r.dt, op)
+		} else {
+			res = sim.Exec(wl.Kind, r.dt, op.Call)
+		}
 		if res.Panic != nil {
 			return false, calls, fmt.Errorf("local call on a realtime client panicked: %v at %s", res.Panic, res.Stack)
 		}
@@ -484,7 +527,7 @@ func (w *l1World) storedLogByKey(key string) ([]storedOp, error) {
 
 func testC18Realtime(t *testing.T, kind sim.Kind) {
 	col := stats.New("C18", t.Name(),
-		"2-4 REAL clients in REALTIME mode (gRPC on loopback through a proxy, MQTT through the in-process broker with drawn forward delays); after each has subscribed by itself they only perform drawn local operations at drawn pauses - no Sync call (document workloads also contain REST patches of the document: pushes by the server's own client that the realtime clients have to pull by themselves); "+
+		"2-4 REAL clients in REALTIME mode (gRPC on loopback through a proxy, MQTT through the in-process broker with drawn forward delays); after each has subscribed by itself they only perform drawn local operations at drawn pauses (a fifth of them inside a user transaction that stays open 0-12 ms and fails in half of the cases) - no Sync call (document workloads also contain REST patches of the document: pushes by the server's own client that the realtime clients have to pull by themselves); "+
 			"the harness waits for quiescence (no RPC in flight, no notification queued, no background work, nothing to push, calm for ~10 ms) and then requires every client = refmodel(stored log); an operation that stays unpushed while nothing at all is active for 3 s is a violation (the client library has no timers, nobody will push it); otherwise not reaching quiescence within 12 s makes the case inconclusive (skipped, counted), never a violation; "+
 			"non-trivial = >=2 clients issued operations; distinct = hash of the workload (the schedule is sampled, not controlled)")
 	col.Assume("schedule coverage is sampled; convergence is checked in its safety form quiescent => converged")
@@ -495,7 +538,7 @@ func testC18Realtime(t *testing.T, kind sim.Kind) {
 			IDSeed: rapid.Uint64Range(1, 1<<40).Draw(rt, "idseed")}
 		n := rapid.IntRange(1, 25).Draw(rt, "ops")
 		issuers := map[int]bool{}
-		patches := 0
+		patches, txs := 0, 0
 		for i := 0; i < n; i++ {
 			ci := rapid.IntRange(0, wl.Clients-1).Draw(rt, "c")
 			issuers[ci] = true
@@ -521,7 +564,14 @@ func testC18Realtime(t *testing.T, kind sim.Kind) {
 				ci = -1 // a REST patch of the document instead of a client operation
 				patches++
 			}
-			wl.Ops = append(wl.Ops, c18Op{C: ci, Call: call, Sleep: rapid.SampledFrom([]int{0, 0, 100, 1000, 3000}).Draw(rt, "sleep")})
+			op := c18Op{C: ci, Call: call, Sleep: rapid.SampledFrom([]int{0, 0, 100, 1000, 3000}).Draw(rt, "sleep")}
+			if ci >= 0 && rapid.IntRange(0, 4).Draw(rt, "in_tx") == 0 {
+				// inside a user transaction that stays open for a while and may fail (nothing of it is pushed then,
+				// but whatever the client issued before still has to be)
+				op.Tx, op.TxSleep, op.TxFail = true, rapid.SampledFrom([]int{0, 500, 3000, 12000}).Draw(rt, "tx_sleep"), rapid.Bool().Draw(rt, "tx_fail")
+				txs++
+			}
+			wl.Ops = append(wl.Ops, op)
 		}
 		c.j.Header = wl
 		q, _, err := c18Run(wl)
@@ -539,6 +589,9 @@ func testC18Realtime(t *testing.T, kind sim.Kind) {
 		rl := []string{"kind=" + string(kind), fmt.Sprintf("clients=%d", wl.Clients)}
 		if patches > 0 {
 			rl = append(rl, "rest-patch-during-the-workload")
+		}
+		if txs > 0 {
+			rl = append(rl, "user-transactions(open-for-a-while,some-fail)")
 		}
 		col.Case(len(issuers) >= 2, string(b), rl, func() interface{} { return wl })
 	})
@@ -615,5 +668,47 @@ func TestC18LateJoiner(t *testing.T) {
 		}
 		b, _ := json.Marshal(wl)
 		col.Case(wl.SubDelay >= 5000, string(b), []string{"kind=" + string(kind), fmt.Sprintf("subscribe-delay-us=%d", wl.SubDelay)}, func() interface{} { return wl })
+	})
+}
+
+// TestC18OpenTransaction: operations issued while a sync of the realtime client is in flight are pushed by the
+// follow-up sync that the running one starts when it ends. Here a user transaction is open at that moment -
+// and is rolled back afterwards in half of the cases, so that nothing later comes to the rescue.
+func TestC18OpenTransaction(t *testing.T) {
+	col := stats.New("C18", t.Name(),
+		"2-3 REAL realtime clients on a Counter / Map / List / Document; RPCs take 1-5 ms (drawn); client 0 issues 2-4 operations without any pause (the first starts a sync, the others find it in flight) and at once opens a user transaction with one more call that stays open 8-25 ms - across the end of that sync - and then commits or fails (drawn); nothing else happens; "+
+			"oracle: at quiescence every client = refmodel(stored log), and an operation that stays unpushed while nothing is active is a violation (as in TestC18Realtime*); non-trivial = the transaction fails; distinct = the drawn parameters")
+	col.Assume("schedule coverage is sampled; convergence is checked in its safety form quiescent => converged")
+	checkProp(t, "C18", col, func(c *caseCtx) {
+		rt := c.rt
+		kind := kindFromDraw(rt)
+		wl := c18Workload{Kind: kind, Clients: rapid.IntRange(2, 3).Draw(rt, "clients"), IDSeed: rapid.Uint64Range(1, 1<<40).Draw(rt, "idseed"),
+			RPCMax: rapid.SampledFrom([]int{1000, 3000, 5000}).Draw(rt, "rpcdelay")}
+		call := func(i int) sim.Call {
+			if kind == sim.Counter {
+				return c07Op(kind, i)
+			}
+			return c06CheapCall(kind, i)
+		}
+		n := rapid.IntRange(2, 4).Draw(rt, "quick_ops")
+		for i := 0; i < n; i++ {
+			wl.Ops = append(wl.Ops, c18Op{C: 0, Call: call(i)})
+		}
+		fail := rapid.Bool().Draw(rt, "tx_fail")
+		wl.Ops = append(wl.Ops, c18Op{C: 0, Call: call(n), Tx: true, TxSleep: rapid.SampledFrom([]int{8000, 15000, 25000}).Draw(rt, "tx_open_us"), TxFail: fail})
+		c.j.Header = wl
+		q, _, err := c18Run(wl)
+		if err != nil {
+			if strings.Contains(err.Error(), "HARNESS-ERROR") {
+				rt.Skip(err.Error())
+			}
+			c.failf("%v", err)
+		}
+		if !q {
+			col.Label("no-quiescence-within-budget")
+			rt.Skip("no quiescence")
+		}
+		b, _ := json.Marshal(wl)
+		col.Case(fail, string(b), []string{"kind=" + string(kind), fmt.Sprintf("tx-fails=%v", fail)}, func() interface{} { return wl })
 	})
 }
